@@ -316,6 +316,8 @@ impl<T: ArrayValue> Array<T> {
                 let target_shape = match ctx.scalar_fill::<T>() {
                     Ok(fill) => {
                         let target_shape = max_shape(&self.shape, &other.shape);
+                        validate_size_of::<T>(target_shape.iter().copied())
+                            .map_err(|e| ctx.error(e))?;
                         let row_shape = &target_shape[1..];
                         self.fill_to_shape(row_shape, fill.clone());
                         other.fill_to_shape(&target_shape, fill);
@@ -431,6 +433,8 @@ impl<T: ArrayValue> Array<T> {
                                 {
                                     let mut new_shape = new_row_shape.clone();
                                     new_shape.prepend(array.shape[0]);
+                                    validate_size_of::<T>(new_shape.iter().copied())
+                                        .map_err(|e| ctx.error(e))?;
                                     array.fill_to_shape(&new_shape, fill);
                                 }
                             }
@@ -560,6 +564,8 @@ impl<T: ArrayValue> Array<T> {
                         self.shape.push(1);
                     }
                     let target_shape = max_shape(&self.shape, &other.shape);
+                    validate_size_of::<T>(target_shape.iter().copied())
+                        .map_err(|e| ctx.error(e))?;
                     let row_shape = &target_shape[1..];
                     self.fill_to_shape(&target_shape, fill.clone());
                     other.fill_to_shape(row_shape, fill);
